@@ -15,18 +15,29 @@ MAX_BLOCKS = 400
 
 _cache = {}
 
+# private functions some rule anchors on by name: inlining them away would leave that rule without its anchor
+VOCABULARY = {'crdts::identifier::rational_between'}
+PLUMBING_TRAITS = {'Extend', 'FromIterator', 'AsRef', 'AsMut', 'Borrow', 'BorrowMut', 'Deref', 'DerefMut', 'Index', 'IndexMut'}
+
 
 def _callee_body(facts, t):
     c = t.get('callee')
-    if not c or not c.get('local'):
+    if not c or not (c.get('local') or str(c.get('resolved') or '').startswith(('crdts::', '<crdts::'))):
         return None
     uid = c.get('resolved_uid') or c.get('uid')
     cb = facts.by_uid.get(uid)
     if cb is None or cb.derived or cb.kind not in ('Fn', 'AssocFn'):
         return None
-    if cb.vis == 'pub' or cb.vis is None:
+    if uid in VOCABULARY:
         return None
-    if cb.impl_trait:  # trait methods are public API
+    if cb.impl_trait:
+        # methods of the crate's own traits are the vocabulary the rules speak (apply, merge, reset_remove, validate_*); impls of
+        # std *plumbing* traits (Extend, FromIterator, AsRef, ..) written for a crate type are helpers under another name
+        tr = cb.impl_trait
+        if tr.startswith(('std::', 'core::', 'alloc::')) and tr.split('::')[-1] in PLUMBING_TRAITS:
+            return cb
+        return None
+    if cb.vis == 'pub' or cb.vis is None:
         return None
     return cb
 
